@@ -18,6 +18,32 @@ def plan(tier):
     return 1500 if tier == "quick" else 30000
 
 
+# second workload: the images the repository's own tests master (harness/suite.py) are opened and
+# mastered again by a fresh object
+SUITE_TIERS = ('quick', 'thorough')
+
+
+def suite_oracle(data):
+    import io
+    import pycdlib
+    iso = pycdlib.PyCdlib()
+    try:
+        iso.open_fp(io.BytesIO(data))
+    except Exception as e:
+        return [{'key': 'reopen-raises:%s@%s' % (type(e).__name__, driver.innermost_pycdlib_frame(e)), 'detail': str(e)}]
+    out = io.BytesIO()
+    try:
+        iso.write_fp(out)
+    except Exception as e:
+        return [{'key': 'rewrite-raises:%s@%s' % (type(e).__name__, driver.innermost_pycdlib_frame(e)), 'detail': str(e)}]
+    finally:
+        try:
+            iso.close()
+        except Exception:
+            pass
+    return classify(data, out.getvalue())
+
+
 def mask_dates(data, ecma):
     b = bytearray(data)
     for vd in ecma.vds:
@@ -89,6 +115,9 @@ def check(cfg, ops, seed, counters=None):
 
 
 def run_case(i, seed, tier):
+    if i >= plan(tier):
+        from harness import suite
+        return suite.run_slot(PROPERTY, i - plan(tier), suite_oracle)
     from harness.props import c01
     counters = {}
     g = Gen(seed * 1000003 + i)
@@ -139,6 +168,9 @@ def run_case(i, seed, tier):
 
 
 def replay(doc):
+    if doc.get('suite_image'):
+        from harness import suite
+        return suite.replay(doc, suite_oracle)
     from harness.props import c01
     cfg, ops, seed = common.doc_cfg_ops(doc)
     return c01.dedup(check(cfg, ops, seed))
